@@ -39,7 +39,7 @@ func init() {
 		Rule: "the full product {14 spellings of the 8 path-bearing attributes} x {path shapes valid for the attribute's class: ./x, d/y, ../x, ., ./a/../b, x/, /abs, /abs/./a/../b, ~, ~/x, C:\\x, c:/x, \\\\srv\\share, https://, http://, git://, ssh://, git@, github.com/, docker-image://, foo://, named volume} x {origin: main file, override file, include (short), include with project_directory, include at depth 2, extends from another directory, two-level extends chain, own attribute of an extending service} is enumerated in a seeded order and packed 2-7 placements per scenario, with seeded project-directory shapes (deep / spaces / dots) and main-file location (inside or outside the project directory); every scenario also carries path-looking decoys in non-path attributes of the main, included and extended files. " +
 			"A scenario is non-trivial when the load with path resolution succeeded and at least one placement had a relative or ~ shape from a non-main origin or an untouched shape (absolute, Windows, remote, named); distinct = distinct (files, placements).",
 		Assumptions: []string{
-			"expected values are lexical: clean(join(base, value)); the scenario directories contain no symbolic links (develop.watch paths additionally resolve symlinks, which the statement does not cover)",
+			"expected values are lexical: clean(join(base, value)); the generated scenario directories contain no symbolic links; a separate hand-shaped part puts directory links (relative, absolute, outside the project, chained) under develop.watch paths, the only attribute whose links the library resolves, and requires an absolute result designating the same directory",
 			"HOME is pinned to a directory inside the case for ~ expansion; ~user forms are not generated",
 			"Windows-absolute shapes are generated only for mount sources, secret/config files and the bind device of a local volume (where the statement says they stay as written); remote shapes only for build contexts",
 			"loader-recognised remote references need a custom ResourceLoader, which the shared loader wrapper cannot express: not exercised",
@@ -921,6 +921,7 @@ func reportAll(s *core.Shard, sc *scenario, vs []verdict) {
 // ---------------------------------------------------------------------------
 
 func run(s *core.Shard) {
+	runSymlinks(s, 7, "")
 	combos := allCombos()
 	r := s.Rand("scenarios")
 	r.Shuffle(len(combos), func(i, j int) { combos[i], combos[j] = combos[j], combos[i] })
@@ -981,6 +982,14 @@ func run(s *core.Shard) {
 }
 
 func replay(s *core.Shard, dir string) {
+	var kind struct {
+		Kind string `json:"kind"`
+		ID   string `json:"id"`
+	}
+	if err := core.ReadJSON(filepath.Join(dir, "case.json"), &kind); err == nil && kind.Kind == "symlinks" {
+		runSymlinks(s, 0, kind.ID)
+		return
+	}
 	var sc scenario
 	if err := core.ReadJSON(filepath.Join(dir, "case.json"), &sc); err != nil {
 		s.Inconclusive("replay: " + err.Error())
